@@ -748,6 +748,12 @@ class introduction(Method):
             names = [name.strip() for name in data['names'].split(",")]
         else:
             names = []
+
+        # A new variable must not capture a variable occurring in the goal
+        free_names = [v.name for v in prop.get_vars()]
+        for i, name in enumerate(names):
+            assert name not in free_names and name not in names[:i], \
+                "introduction: duplicate name %s" % name
         pt = intros_tac.get_proof_term(cur_item.th, args=names)
 
         cur_item.rule = "subproof"
